@@ -713,6 +713,8 @@ class Verifier:
                 tok = si.value
             self.factory.seq += 1
             calls.append({'args': list(args), 'kwargs': dict(kwargs), 'result': tok, 'seq': self.factory.seq})
+            if getattr(f, 'lru_cache', False):
+                I.mark_cached(tok, f.qualname)
             for fn in st.stub_assumes.get(sname, []):
                 I.assume(zbool(I.truth_term(I.call(fn, [tok] + list(args), dict(kwargs)))))
             return tok
@@ -847,7 +849,8 @@ class Verifier:
                 input_rngs |= {id(v_) for si_ in st.inputs.values() if isinstance(si_.value, Instance)
                                for v_ in si_.value.fields.values() if isinstance(v_, Rng)}
                 lazy_lib_rng = ('global_write: gym_gridverse.rng._gv_rng', 'new_rng')
-                bad = [f'{k_}: {w_}' for k_, w_ in st.effects if k_ in ('global_write', 'new_rng', 'identity')
+                all_effects = list(st.effects) + [e_ for e_ in I.sticky_effects if e_ not in st.effects]
+                bad = [f'{k_}: {w_}' for k_, w_ in all_effects if k_ in ('global_write', 'new_rng', 'identity', 'cache_write')
                        or (k_ == 'set_order' and not spec.opts.get('allow_set_order'))]
                 # creating the (still unused) library generator lazily is not a draw; drawing from it is
                 bad = [b_ for b_ in bad if not b_.startswith(lazy_lib_rng)]
@@ -861,6 +864,7 @@ class Verifier:
             return None
 
         before = set(self.results)
+        I.sticky_effects = []
         try:
             leaves = I.explore(thunk)
             for conds, facts, kind, payload in leaves:
